@@ -1,9 +1,11 @@
 /-
   Scc.Core2AxCut.Proofs — lemmas about the shrinking model (`Model.lean`) and the shape typing of
   focused Core (`FsTyping.lean`): size/typing invariance under id-substitution, totality of
-  `shrinkStmt` on well-typed input with the fuel used by `shrinkDef` (no panic, no fuel error).
+  `shrinkStmt` on well-typed input with the fuel used by `shrinkDef` (no panic, no fuel error; the
+  label-drawing loop of `lift` never exhausts its fuel by `drawLabel_ok` of `Labels.lean`).
 -/
 import Scc.Core2AxCut.Model
+import Scc.Core2AxCut.Labels
 import Scc.Core2AxCut.FsTyping
 
 namespace Scc.Core2AxCut
@@ -170,8 +172,10 @@ theorem shrinkClauses_ok {env : Env} {E : TEnv} {n : Nat} {rec : Rec} (hrec : Re
 theorem lift_ok {env : Env} {E : TEnv} {n : Nat} {rec : Rec} (hrec : RecOk E n rec) (s st)
     (h : wtStmt E s = true) (hs : sizeStmt s ≤ n) : ∃ r, lift env rec s st = .ok r := by
   simp only [lift]
+  obtain ⟨⟨label, st1⟩, hd⟩ := drawLabel_ok ("lift_" ++ env.currentLabel ++ "_") (liftFresh (tfvStmt s []) st).2
+  simp only [hd]
   obtain ⟨⟨b, st3⟩, hr⟩ := hrec (substStmt (liftFresh (tfvStmt s []) st).1.2 s)
-    (freshIdentifier (liftFresh (tfvStmt s []) st).2 ("lift_" ++ env.currentLabel ++ "_")).2
+    { st1 with usedLabels := label :: st1.usedLabels }
     (by rw [wtStmt_subst]; exact h) (by rw [sizeStmt_subst]; exact hs)
   simp [hr]
 
@@ -420,18 +424,18 @@ theorem shrinkStmt_ok {env : Env} {E : TEnv} (hE : EnvMatches env E) : ∀ fuel,
     intro s st h hs
     exact shrinkStmtStep_ok hE (shrinkStmt_ok hE fuel) s st h hs
 
-theorem shrinkDef_ok {E : TEnv} (d : Core.FsDef) (maxId : Nat) (h : wtStmt E d.body = true) :
-    ∃ r, shrinkDef d E.data E.codata maxId = .ok r := by
+theorem shrinkDef_ok {E : TEnv} (d : Core.FsDef) (used : List Core.Ident) (maxId : Nat)
+    (h : wtStmt E d.body = true) : ∃ r, shrinkDef d E.data E.codata used maxId = .ok r := by
   obtain ⟨⟨b, st⟩, hb⟩ := shrinkStmt_ok (env := ⟨E.data, E.codata, d.name.name⟩) (E := E) ⟨rfl, rfl⟩
-    (sizeStmt d.body + 1) d.body ⟨maxId, []⟩ h (by omega)
+    (sizeStmt d.body + 1) d.body ⟨maxId, used, []⟩ h (by omega)
   simp [shrinkDef, hb]
 
-theorem shrinkDefs_ok {E : TEnv} : ∀ (ds : List Core.FsDef) (maxId : Nat),
-    (∀ d ∈ ds, wtStmt E d.body = true) → ∃ r, shrinkDefs E.data E.codata ds maxId = .ok r
-  | [], _, _ => by simp [shrinkDefs]
-  | d :: ds, maxId, h => by
-    obtain ⟨⟨r1, m1⟩, h1⟩ := shrinkDef_ok (E := E) d maxId (h d (by simp))
-    obtain ⟨⟨r2, m2⟩, h2⟩ := shrinkDefs_ok (E := E) ds m1 (fun d' hd' => h d' (by simp [hd']))
+theorem shrinkDefs_ok {E : TEnv} : ∀ (ds : List Core.FsDef) (used : List Core.Ident) (maxId : Nat),
+    (∀ d ∈ ds, wtStmt E d.body = true) → ∃ r, shrinkDefs E.data E.codata ds used maxId = .ok r
+  | [], _, _, _ => by simp [shrinkDefs]
+  | d :: ds, used, maxId, h => by
+    obtain ⟨⟨r1, u1, m1⟩, h1⟩ := shrinkDef_ok (E := E) d used maxId (h d (by simp))
+    obtain ⟨⟨r2, u2, m2⟩, h2⟩ := shrinkDefs_ok (E := E) ds u1 m1 (fun d' hd' => h d' (by simp [hd']))
     simp [shrinkDefs, h1, h2]
 
 /-- on well-typed focused Core the model of `shrink_prog` returns a program: no panic site is
@@ -439,7 +443,7 @@ theorem shrinkDefs_ok {E : TEnv} : ∀ (ds : List Core.FsDef) (maxId : Nat),
 theorem shrinkProg_ok (p : Core.FsProg) (h : wtFsCheck p = true) : ∃ q, shrinkProg p = .ok q := by
   simp only [wtFsCheck, noContName, Bool.and_eq_true, Bool.not_eq_true', List.all_eq_true] at h
   obtain ⟨⟨hd, hc⟩, hdefs⟩ := h
-  obtain ⟨⟨defs, m⟩, hr⟩ := shrinkDefs_ok (E := progTEnv p) p.defs p.maxId hdefs
+  obtain ⟨⟨defs, u, m⟩, hr⟩ := shrinkDefs_ok (E := progTEnv p) p.defs (p.defs.map (·.name)) p.maxId hdefs
   simp only [progTEnv] at hr
   simp [shrinkProg, hd, hc, hr]
 
